@@ -127,12 +127,21 @@ def run(tier):
         for a in range(0, len(types), 2):
             grp = [r for r in reqs if r['type'] in types[a:a + 2]]
             rnd.shuffle(grp)
-            cases += [{'api': 'history', 'cold': True, 'reqs': grp[i:i + hist_len]} for i in range(0, len(grp), hist_len)]
+            for i in range(0, len(grp), hist_len):
+                cases.append({'api': 'history', 'cold': True, 'reqs': grp[i:i + hist_len]})
+            # the same requests served by long-lived recogniser objects (one per family and options) instead of a fresh
+            # recogniser per request: requests that differ only in letter case or in the fallback flag are adjacent
+            # (fallback first, and reversed)
+            sgrp = sorted(grp, key=lambda r: (r['type'], r['code'].lower(), r['opt'], not r['fb'], r['code']))
+            for n, i in enumerate(range(0, len(sgrp), hist_len)):
+                if tier == 'thorough' or n % 2 == 0:
+                    cases.append({'api': 'history', 'cold': True, 'shared': True, 'reqs': sgrp[i:i + hist_len]})
+                    cases.append({'api': 'history', 'cold': True, 'shared': True, 'reqs': sgrp[i:i + hist_len][::-1]})
         # seeded random histories with repeats (warm hits) over a small alphabet
         alpha = [r for r in reqs if r['type'] in ('NumberModel', 'DateTimeModel', 'CurrencyModel')][:400]
         for _ in range(10 if tier == 'quick' else 60):
             pick = [rnd.choice(alpha) for _ in range(12)]
-            cases.append({'api': 'history', 'cold': True, 'reqs': [rnd.choice(pick) for _ in range(100)]})
+            cases.append({'api': 'history', 'cold': True, 'shared': bool(_ % 2), 'reqs': [rnd.choice(pick) for _ in range(100)]})
         # free-running threads sharing the cache
         for _ in range(8 if tier == 'quick' else 80):
             pick = [rnd.choice(alpha) for _ in range(6)]
